@@ -184,7 +184,7 @@ def isPrefixOf (p s : Bytes) : Bool := s.take p.length = p
 
 /-- `find_handler`: first match in table order; the two xattr rows match `<name>.` as a prefix -/
 def findHandler (key : Bytes) : Option PaxKind :=
-  let a (s : String) : Bytes := s.toUTF8.toList
+  let a := ascii
   if key = a "uid" then some .uid
   else if key = a "gid" then some .gid
   else if key = a "path" then some .path
@@ -286,11 +286,11 @@ def paxLine (st : PaxState) (l : Bytes) : Option (PaxState × Nat) :=
                 | none => none
                 | some o => some ({ st with out := o, mask := setFlag st.mask (kindFlag k) }, len)
               | none =>
-                if key = "GNU.sparse.offset".toUTF8.toList then
+                if key = ascii "GNU.sparse.offset" then
                   match parseUint (cstr value) with
                   | none => none
                   | some (v, _) => some ({ st with offset := v }, len)
-                else if key = "GNU.sparse.numbytes".toUTF8.toList then
+                else if key = ascii "GNU.sparse.numbytes" then
                   match parseUint (cstr value) with
                   | none => none
                   | some (v, _) =>
